@@ -2011,6 +2011,16 @@ class Transport(threading.Thread, ClosingContextManager):
         key = self._key_info[self.host_key_type](Message(host_key))
         if key is None:
             raise SSHException("Unknown host key type")
+        # The signature must be made with the negotiated host key algorithm
+        # (certificate key types sign with their base algorithm), not merely
+        # with any algorithm the key class happens to understand.
+        expected = self.host_key_type.replace("-cert-v01@openssh.com", "")
+        if Message(sig).get_binary() != b(expected):
+            raise SSHException(
+                "Signature algorithm does not match the negotiated host key algorithm ({}).".format(  # noqa
+                    self.host_key_type
+                )
+            )
         if not key.verify_ssh_sig(self.H, Message(sig)):
             raise SSHException(
                 "Signature verification ({}) failed.".format(
